@@ -195,7 +195,8 @@ def run(chk):
         shard_counts.add(s["nshards"])
         chk.cov["distinct_nontrivial"] += s["distinct"]
         chk.notes.setdefault("record", []).append({k: s[k] for k in ("nshards", "pinned", "runs", "distinct", "gap_steps",
-                                                                      "runs_with_interleaved_gap", "flavours", "lines", "same_shard_groups")})
+                                                                      "runs_with_interleaved_gap", "flavours", "lines", "same_shard_groups",
+                                                                      "same_shard_and_tag")})
         chk.log("recorded %d scheduled runs at %d shards (%d with another thread inside a gap), %d events: validated"
                 % (s["runs"], s["nshards"], s["runs_with_interleaved_gap"], s["lines"]))
         if pname == "all":
@@ -280,7 +281,7 @@ def run(chk):
         validate(chk, tr, s, "real-parallel trials (%d shards)" % s["nshards"])
         total += s["runs"]
         chk.notes.setdefault("free", []).append({k: s.get(k) for k in ("nshards", "runs", "constructions", "distinct",
-                                                                        "trials_with_several_storages_seen", "hang")})
+                                                                        "trials_with_several_storages_seen", "trials_with_race_through_gap", "hang")})
         chk.log("real-parallel: %d trials at %d shards, %d storages constructed: validated" % (s["runs"], s["nshards"], s["constructions"]))
     chk.cov["traces_validated_against_impl"] = total
     chk.cov["rule"] = ("TLC: every interleaving of 2-4 threads x 2-3 public calls (get_or_create split at the read->write gap, "
@@ -308,8 +309,9 @@ def trace_to_programs(lines):
 
 
 def replay(chk, path):
-    """path: a recorded run (ndjson trace): the calls and the grant order are executed again on the real registry at
-    the same shard count and validated; real-parallel trials and TLC counterexamples are re-validated / re-checked."""
+    """path: a recorded scheduled run (ndjson trace): its calls and grant order are executed again on the real registry
+    at the same shard count and the new run is validated. A real-parallel trial cannot be re-executed exactly: the stored
+    observation is validated again. A TLC counterexample (.txt): the whole check is run again."""
     if path.endswith(".txt"):
         return run(chk)
     ok, out, wall = vlib.cargo_build("c06")
@@ -321,7 +323,7 @@ def replay(chk, path):
     if any('"ev":"free"' in l or '"ev":"hang"' in l for l in lines):
         vlib.validate_concat(chk, SPEC, "MCTraceRegistry", trace_cfg(nshards), path, "stored real-parallel trial " + path)
         return
-    vlib.validate_concat(chk, SPEC, "MCTraceRegistry", trace_cfg(nshards), path, "stored run " + path)
+    # a scheduled run: the stored lines say what the code did then; what counts is what it does now
     progs = chk.path("replay_programs.ndjson")
     with open(progs, "w") as f:
         for p in trace_to_programs(lines):
